@@ -333,7 +333,7 @@ def run_function(c: Ctx, fn: Any, args: list, max_steps: int = 400) -> tuple:
                     r = a * (2**sh) if k == O.IntOp.LEFT_SHIFT else (a / (2**sh) if signed else (a % (2**bits)) / (2**sh))
                 else:
                     raise IRUnsupportedOp(f"IntOp {k}")
-                env[op] = wrap(r, bits, signed) if kind != "bool" else r % 2
+                env[op] = wrap(r, bits, signed)  # bool/bit registers are 8-bit C chars: `b << 1` is 2, not 0
                 continue
             if isinstance(op, O.ComparisonOp):
                 a, b2 = get(op.lhs), get(op.rhs)
